@@ -7,6 +7,8 @@ Notation string := String.string.
 Notation EmptyString := String.EmptyString.
 Notation SString := String.String.
 Export String.StringSyntax.
+Delimit Scope string_scope with string.
+Bind Scope string_scope with String.string.
 Export Ascii.AsciiSyntax.
 From Coq Require Export ZifyN ZifyBool ZifyNat.
 Export ListNotations.
